@@ -88,6 +88,17 @@ def units(rng, tier):
             u["group"] = gid
             u["natural_ticks"] = T
             us.append(u)
+    # ---- complete greedy under the WEIGHTED objective (MaximizeSmallestWeightedSum, which refuses the sorted fast path and has no lower
+    # bound): no driver model, so only "every interruption point gives nothing or a complete valid partition; no limit gives a result"
+    for _ in range(40 if tier == "quick" else 400):
+        vals, fam = gen.values(rng, nmax=6, vmax=1000)
+        k = rng.choice([2, 2, 3])
+        p = {"keep": rng.random() < 0.7, "k": k, "wobjective": [rng.randint(1, 4) for _ in range(k)], "flags": [rng.randint(0, 1) for _ in range(4)]}
+        p.update(gen.with_format(rng, vals, rng.choice(["list", "dict_str"])))
+        for n in [-1, 0, 1, 2, 3, 5, 8, 13, 21, 40, 80]:
+            q = dict(p)
+            q["limit"] = n
+            us.append(U("cg_clock", q, "cg/weighted-objective", cmp=None))
     # ---- cbldm without limit, dense: a binding cardinality bound on 5..8 small values (perfect but unbalanced partitions exist, the balanced
     # optimum is positive): "with no limit the result is optimal" under the bound, judged by the oracle opt_balanced2 in extra_checks
     for _ in range(2000 if tier == "quick" else 30000):
